@@ -71,6 +71,30 @@ func patternOK(p []spart) bool {
 }
 
 func matchParts(p, u []spart, laxStar bool) verdict {
+	v := matchPartsV(p, u, laxStar)
+	if v == MustNot {
+		return v
+	}
+	// a host label that equals the pattern's only up to letter case: host names
+	// are case-insensitive, the text does not say which reading applies (May).
+	// Literal PATH segments are compared as written.
+	for i, x := range p {
+		if i < len(u) && x.host && x.tok != "*" && !isParam(x.tok) && x.tok != u[i].tok {
+			return May
+		}
+	}
+	return v
+}
+
+// litEq: equal, or (host labels only) equal up to ASCII letter case.
+func litEq(x, u spart) bool {
+	if x.tok == u.tok {
+		return true
+	}
+	return x.host && strings.EqualFold(x.tok, u.tok)
+}
+
+func matchPartsV(p, u []spart, laxStar bool) verdict {
 	for i, x := range p {
 		if x.tok == "*" {
 			rest := u[i:]
@@ -85,7 +109,7 @@ func matchParts(p, u []spart, laxStar bool) verdict {
 		if i >= len(u) || u[i].host != x.host {
 			return MustNot
 		}
-		if !isParam(x.tok) && x.tok != u[i].tok {
+		if !isParam(x.tok) && !litEq(x, u[i]) {
 			return MustNot
 		}
 		if u[i].tok == "" {
